@@ -842,7 +842,7 @@ Proof.
       - unfold starts in Hi. apply in_map_iff in Hi. destruct Hi as [x0 [Hx0 Hi]].
         pose proof (IH x0 Hnd' Hi) as H1. rewrite Hx0 in H1. rewrite <- H1.
         apply Hlast; assumption.
-      - rewrite adds_true_starts in Hi. rewrite (ends_for_absent _ _ Hi). cbn. lia. }
+      - rewrite adds_true_starts in Hi. rewrite (ends_for_absent _ _ Hi). unfold max_list. cbn [fold_right]. lia. }
     destruct (add_true_result_end _ m x (adds_true_sorted ms) Hin He) as [H1|[x0 [Hx0 [Hs0 H1]]]].
     + lia.
     + pose proof (Hlast x0 Hx0 Hs0). lia.
@@ -1078,7 +1078,7 @@ Proof.
   - cbn [snd]. split; [discriminate|]. intros [l0 [E _]]. discriminate.
 Qed.
 
-(* the hypothesis is satisfiable: limit 1, second distinct match for the same pattern *)
+(* the premise is satisfiable: limit 1, second distinct match for the same pattern *)
 Example pm_add_max_reached_ex :
   let p := fst (pm_add (pm_set_max pm_new 1) 7 (mkM 1 2 None) false) in
   snd (pm_add p 7 (mkM 3 4 None) false) = MaxMatchesReached.
@@ -1323,4 +1323,31 @@ Proof.
   - cbn [fst]. rewrite H1.
     replace (len_N l <? pm_max p) with false by (symmetry; apply N.ltb_ge; exact H2). reflexivity.
   - cbn [fst pm_entries pm_lookup]. rewrite N.eqb_refl, H1. reflexivity.
+Qed.
+
+(* ================================================================== the Rust unit tests, replayed *)
+
+(* matches.rs `fn match_list`: same calls, same expected vector *)
+Example rust_test_match_list :
+  map (fun x => (m_start x, m_end x))
+      (run_adds [(mkM 2 10 None, false); (mkM 1 10 None, false); (mkM 1 15 None, true);
+                 (mkM 4 10 None, false); (mkM 3 10 None, false); (mkM 5 10 None, false)])
+  = [(1, 15); (2, 10); (3, 10); (4, 10); (5, 10)].
+Proof. reflexivity. Qed.
+
+(* premises of add_other_matches_kept / add_returns_true_iff_new are satisfiable, and the
+   xor key of an updated match is the OLD one (only `end` is assigned) *)
+Example add_update_keeps_key :
+  ml_add [mkM 1 4 (Some 7); mkM 9 12 None] (mkM 1 6 (Some 200)) true
+  = ([mkM 1 6 (Some 7); mkM 9 12 None], false).
+Proof. reflexivity. Qed.
+
+Example add_other_matches_kept_ex :
+  let l := [mkM 1 4 (Some 7); mkM 9 12 None] in
+  sorted l /\ In (mkM 9 12 None) l /\ m_start (mkM 9 12 None) <> m_start (mkM 1 6 None).
+Proof.
+  cbv zeta. split; [|split].
+  - repeat constructor.
+  - right. left. reflexivity.
+  - discriminate.
 Qed.
